@@ -236,9 +236,22 @@ impl Net {
             _ => {}
         }
 
+        let mark_ce = match (&phase, &fate) {
+            (Some(ph), Fate::Deliver { .. }) if ph.ce > 0.0 => {
+                use s2n_quic_core::inet::ExplicitCongestionNotification as Ecn;
+                matches!(packet.ecn, Ecn::Ect0 | Ecn::Ect1) && self.rng.f64() < ph.ce
+            }
+            _ => false,
+        };
+        if mark_ce {
+            self.w.lock().unwrap().ctx.feature("ecn_ce_marked");
+        }
         if let Fate::Deliver { at, copies, .. } = &fate {
             for c in 0..*copies {
                 let mut p = packet.clone();
+                if mark_ce {
+                    p.ecn = s2n_quic_core::inet::ExplicitCongestionNotification::Ce;
+                }
                 p.payload = payload.clone();
                 let mut w2 = wire.clone();
                 w2.bytes = payload.clone();
